@@ -1040,6 +1040,11 @@ func loadViewFromFixedLengthTextFile(ctx context.Context, fp *file.Reader, fileI
 		r = fp
 	}
 
+	if fileInfo.SingleLine && len(fileInfo.DelimiterPositions) < 1 {
+		// Records of a single-line file are separated only by their length, which is unknown without any positions.
+		return nil, fmt.Errorf("delimiter positions of a single-line file must not be empty")
+	}
+
 	reader, err := fixedlen.NewReader(r, fileInfo.DelimiterPositions, fileInfo.Encoding)
 	if err != nil {
 		return nil, err
